@@ -100,6 +100,19 @@ pub fn check_case(b: &[u8], op: &Value) -> Option<(String, String)> {
                 if m.to_vec().map_err(|e| e.to_string())? != b {
                     return Err("to_vec(read_slice(b)) != b".into());
                 }
+                // the public accessors show what the bytes hold (mirror-decoded)
+                if let Ok((spec, _)) = crate::mirror::ModelSpec::from_bytes(b) {
+                    let toks: Vec<&str> = m.tag_models().iter().map(|t| t.token()).collect();
+                    let want: Vec<&str> = spec.tag_models.iter().map(|t| t.token.as_str()).collect();
+                    if toks != want {
+                        return Err(format!("Model::tag_models() lists tokens {toks:?}, the file holds {want:?}"));
+                    }
+                    let dict: Vec<(&str, &[i32], &str)> = m.dictionary().iter().map(|r| (r.get_word(), r.get_weights(), r.get_comment())).collect();
+                    let wantd: Vec<(&str, &[i32], &str)> = spec.dict_model.iter().map(|r| (r.word.as_str(), &r.weights[..], r.comment.as_str())).collect();
+                    if dict != wantd {
+                        return Err(format!("Model::dictionary() differs from the file's dictionary: {dict:?} vs {wantd:?}"));
+                    }
+                }
                 let mut w = vec![];
                 m.write(&mut w).map_err(|e| format!("write: {e}"))?;
                 if w != b {
